@@ -10,6 +10,7 @@ mod hdr;
 mod mt;
 mod pexpr;
 mod pgr;
+mod slot;
 mod sql;
 mod tree;
 mod tup;
@@ -68,6 +69,7 @@ fn main() {
                     "hdr" => hdr::run(&toks),
                     "tree" => tree::run(&toks),
                     "pgr" => pgr::run(&toks),
+                    "slot" => slot::run(&toks),
                     _ => panic!("unknown mode"),
                 }));
                 let s = match r {
